@@ -272,9 +272,9 @@ class Prop:
                    "eps=1e-6 stopping rule legitimately stops before exactness)",
                    "recovery additionally assumes the non-singularity hypothesis of DESIGN.md (C08_exact_recovery_partial), observed "
                    "on the run: the target restricted to the returned nested index sets lsets[j] x rsets[j-1] has the rank of the "
-                   "j-th unfolding for every bond; runs with a degenerate skeleton (about 2-3% of the claims, all on targets with "
-                   "many zero entries / zero fibres, where about 40% of them do fail to recover on the pinned tree) are excused "
-                   "from the recovery clause only - interpolation, grid-only evaluation and min/max are unconditional",
+                   "j-th unfolding for every bond; a run that ends on a degenerate skeleton AND misses the target is reported (it is "
+                   "the recorded finding C08-degenerate-skeleton-no-recovery, about 0.7% of the claims; three such inputs are "
+                   "pinned in corpus/C08) - interpolation, grid-only evaluation and min/max are unconditional",
                    "for-every-seed is sampled: a finite number of seeds per configuration, offset by VERIF_SEED",
                    "entries-only is observed on values: every tuple of arguments passed to the function equals the tuple of "
                    "entries of the given tensors at some common position"]
@@ -811,8 +811,12 @@ class Prop:
                     not close(res["forward_dense"], exp["dense"], 1e-6):
                 return False, "cross_forward does not reproduce the representable target: error %g" % _maxdiff(
                     res["forward_dense"], exp["dense"])
-        if exp["claim"] and not skeleton_ok:
-            return True, "degenerate skeleton: recovery not required"
+        if exp["claim"] and not skeleton_ok and not close(X, D, 1e-6):
+            # the property asks for recovery on every seed: a run that ends on a degenerate skeleton and misses the target
+            # is a violation (attributed to the recorded finding by its tags and this message, nothing else is)
+            return False, "representable target (TT ranks %s, reachable %s, used %s) not recovered; the run ended on a degenerate " \
+                          "skeleton (target restricted to the returned index sets is rank deficient): error %g, seed %d" % (
+                              exp["ttranks"], exp["reach"], res["Rs"], _maxdiff(X, D), case["seed"])
         return True, ""
 
     def nontrivial(self, case, res):
